@@ -80,6 +80,15 @@ def gen_case(rng):
             for _ in range(rng.randint(1, 3))]
     assets = rng.sample(NAMES, rng.randint(1, 4))
     ndays = rng.choice([1, 3, 10, 25])
+    if len(sigs) >= 2 and rng.random() < 0.3:
+        # every signal over its own universe (they overlap; an asset may be old news to one signal and a newcomer to another)
+        unis = []
+        for _ in sigs:
+            mem = rng.sample(assets, rng.randint(1, len(assets)))
+            unis.append({'dynamic': [[a, T0 + 86400 * rng.choice([-3, -3, 0, 1, 2, 5])] for a in mem]})
+        streams = {a: gen_prices(rng, ndays) for a in assets}
+        days = [[T0 + 86400 * i, {a: streams[a][i] for a in assets}] for i in range(ndays)]
+        return dict(kind='coll2', signals=sigs, universes=unis, start=T0 - 86400 * rng.choice([0, 1, 2]), days=days)
     if rng.random() < 0.6:
         uni = {'dynamic': [[a, None if rng.random() < 0.1 else T0 + 86400 * rng.choice([-3, 0, 0, 1, 2, 5, 40]) + rng.choice([0, 0, 60, -60])]
                            for a in assets]}
@@ -126,6 +135,22 @@ def execute(case):
             except (ValueError, KeyError) as e:
                 res.append(dict(out=type(e).__name__))
         return dict(results=res)
+    if case['kind'] == 'coll2':
+        unis = [make_universe(u) for u in case['universes']]
+        dh = StubDH()
+        sigs = collections.OrderedDict(('s%d' % i, CLS[k](ts(case['start']), unis[i], list(lbs))) for i, (k, lbs) in enumerate(case['signals']))
+        coll = SignalsCollection(sigs, dh)
+        res = []
+        for t, prices in case['days']:
+            dh.p = prices
+            try:
+                coll.update(ts(t))
+                out = 'ok'
+            except (ValueError, KeyError) as e:
+                out = type(e).__name__
+            res.append(dict(out=out, universes=[list(u.get_assets(ts(t))) for u in unis],
+                            signals=[dict(assets=sorted(s_.assets), buffers=buffers_of(s_)) for s_ in sigs.values()]))
+        return dict(results=res, init_universes=[list(u.get_assets(ts(case['start']))) for u in unis])
     uni = make_universe(case['universe'])
     dh = StubDH()
     sigs = collections.OrderedDict(('s%d' % i, CLS[k](ts(case['start']), uni, list(lbs))) for i, (k, lbs) in enumerate(case['signals']))
@@ -146,6 +171,8 @@ def execute(case):
 
 def model_lines(case, real):
     lines = ['reset']
+    if case['kind'] == 'coll2':
+        return lines, 1            # per-signal universes: judged by the definition oracle only
     if case['kind'] == 'stream':
         lines.append(' '.join(['sig', case['sig'], str(len(case['lookbacks']))] + [str(l) for l in case['lookbacks']] +
                               [str(len(case['assets']))] + case['assets']))
@@ -264,6 +291,29 @@ def oracle_c16(case, real):
                     out.append(dict(what='%s(%s, %d) = %r after %d prices; definition gives %r' % (
                         case['sig'], op[1], op[2], r['value'], len(streams[op[1]]), want), key='definition'))
         return out
+    if case['kind'] == 'coll2':
+        n = len(case['signals'])
+        tracked = [set(u) for u in real['init_universes']]
+        seen = [collections.defaultdict(list) for _ in range(n)]
+        for j, ((t, prices), r) in enumerate(zip(case['days'], real['results'])):
+            if r['out'] != 'ok':
+                return out
+            for i, ((k, lbs), s_) in enumerate(zip(case['signals'], r['signals'])):
+                tracked[i] |= set(r['universes'][i])
+                for a in tracked[i]:
+                    seen[i][a].append(prices[a])
+                if s_['assets'] != sorted(tracked[i]):
+                    out.append(dict(what='signal %d tracks %r, members of its universe so far %r' % (i, s_['assets'], sorted(tracked[i])), key='tracked-assets'))
+                bufs = dict((key, v) for key, v in s_['buffers'])
+                for a in tracked[i]:
+                    for lb in lbs:
+                        kk = bump(k, lb)
+                        got = bufs.get('%s_%s' % (a, kk))
+                        want = seen[i][a][-kk:]
+                        if got != want:
+                            out.append(dict(what='update %d: signal %d buffer (%s, %d) = %r, expected the last %d closes since its entry %r' % (
+                                j, i, a, lb, got, kk, want), key='cadence'))
+        return out
     # collection: one observation per tracked asset per update, an asset entering later starts empty
     seen = collections.defaultdict(list)
     tracked = set(real['init_universe'])
@@ -323,13 +373,15 @@ def run(prop, tier, seed, n_cases, corpus=()):
                 hist['stream:unknown-buffer'] += 1
             if any(op[0] == 'call' and x.get('value') == 0.0 for op, x in zip(c['ops'], r['results'])):
                 hist['stream:warming-up-zero'] += 1
+        elif c['kind'] == 'coll2':
+            stats['ops'] += len(c['days'])
         else:
             stats['ops'] += len(c['days'])
             if 'dynamic' in c['universe']:
                 hist['coll:dynamic'] += 1
                 if r['results'] and sorted(r['results'][-1]['universe']) != sorted(r['init_universe']):
                     hist['coll:asset-entered-later'] += 1
-        for x in compare(c, r, of, of, hdr, tally):
+        for x in (compare(c, r, of, of, hdr, tally) if c['kind'] != 'coll2' else []):
             x['case_index'] = i
             mism.append(x)
         for f in oracle_c16(c, r):
